@@ -123,10 +123,114 @@ WrapReasons(r) ==
   \cup If(r.same = 0, "exposes-a-different-object@" \o r.kind)
   \cup If(r.after # r.written, "write-through-lost@" \o r.kind)
 
+(* ---- OBSERVED ONLY (outside the statement of C17) --------------------------------
+
+   wrapx: small wrapper observations, each kind with the result its documentation
+   states as a function of the logged inputs:
+     reference_to_base / reference_to_const   "Converts a reference to a base class" /
+        "to a const reference": the same object, [same-object flag, value read]
+     recursive_copy(_assign)   recursive(recursive const &) makes a new Type from
+        other.get(): writing through the copy does not reach the original
+        [original's value, copy's value after the write, distinct objects]
+     recursive_move            the moved-to holds the value; the moved-from can be assigned
+     st_map_*, st_apply_*      strong_typedef_map: "value _function(_input.get())";
+                               strong_typedef_apply: "value _function(_strong_typedef.get(), ...)"
+     st_construct_cast         "Applies a cast from fcppt.cast and then construct[s]"
+     st_output / st_input / st_io_roundtrip   "Output/Input operator for strong typedefs"
+                               = that of the wrapped int (decimal text; a failed extraction
+                               leaves the strong typedef unchanged)
+     function_*                fcppt::function / make_function call the wrapped callable
+                               (the driver wraps x |-> 3x+1 and (x,y) |-> x-2y)
+     unique_ptr_to_const, unique_ptr_dynamic_cast_*, unique_ptr_from_std_null *)
+RECURSIVE DecDigits(_)
+DecDigits(v) == IF v < 10 THEN <<48 + v>> ELSE DecDigits(v \div 10) \o <<48 + (v % 10)>>
+Decimal(v) == IF v < 0 THEN <<45>> \o DecDigits(0 - v) ELSE DecDigits(v)
+RECURSIVE SkipSpaces(_)
+SkipSpaces(t) == IF t # <<>> /\ Head(t) = 32 THEN SkipSpaces(Tail(t)) ELSE t
+RECURSIVE ReadDigits(_, _, _)
+ReadDigits(t, acc, n) == IF t # <<>> /\ Head(t) \in 48..57 THEN ReadDigits(Tail(t), acc * 10 + (Head(t) - 48), n + 1) ELSE <<acc, n>>
+ParseInt(text, unchanged) ==
+  LET t == SkipSpaces(text)
+      neg == t # <<>> /\ Head(t) = 45
+      d == ReadDigits(IF neg THEN Tail(t) ELSE t, 0, 0)
+  IN IF d[2] = 0 THEN <<0, unchanged>> ELSE <<1, IF neg THEN 0 - d[1] ELSE d[1]>>
+
+WrapXExpected(k, in) ==
+  CASE k \in {"reference_to_base", "reference_to_const"} -> <<1, in[1]>>
+    [] k \in {"recursive_copy", "recursive_copy_assign"} -> <<in[1], in[2], 1>>
+    [] k = "recursive_move" -> <<in[1], in[2]>>
+    [] k = "st_map_neg" -> <<0 - in[1]>>
+    [] k = "st_map_double_long" -> <<2 * in[1]>>
+    [] k = "st_apply_sub" -> <<in[1] - in[2]>>
+    [] k = "st_apply_muladd" -> <<in[1] * in[2] + in[3]>>
+    [] k = "st_construct_cast" -> <<in[1]>>
+    [] k = "st_output" -> Decimal(in[1])
+    [] k = "st_io_roundtrip" -> <<in[1], 1>>
+    [] k = "st_input" -> ParseInt(in, 99)
+    [] k \in {"function_call", "function_copy_call", "make_function_call"} -> <<3 * in[1] + 1>>
+    [] k = "make_function2_call" -> <<in[1] - 2 * in[2]>>
+    [] k = "unique_ptr_to_const" -> <<1, in[1], 0>>
+    [] k \in {"unique_ptr_dynamic_cast_ok", "unique_ptr_dynamic_cast_fail"} -> <<1, 0>>
+    [] k = "unique_ptr_from_std_null" -> <<0>>
+    [] OTHER -> <<"unknown wrapx kind">>
+WrapXReasons(r) == If(r.out # WrapXExpected(r.kind, r.in), "result-differs-from-the-documented-one@" \o r.kind)
+
+(* own: a history of smart-pointer operations, folded through Ownership.tla.  After
+   each operation the harness logs, per strong slot [pointee id, use_count, unique,
+   get_pointer() = &*p], per weak slot [present, use_count, expired], per unique slot the
+   pointee id, per object [constructor runs, destructor runs], and what the operation
+   returned.  The fold stops at the first operation that is not explained. *)
+OW(ns, nw, nu) == INSTANCE Ownership WITH NO <- 8, NS <- ns, NW <- nw, NU <- nu, Bug <- "none"
+
+ObsReasons(ns, nw, nu, st, ret, o, tag) ==
+  If(o.ret # ret, tag \o "/returned")
+  \cup If(\E s \in 1..ns : o.sh[s][1] # st.sh[s], tag \o "/strong-slot-holds-another-object")
+  \cup If(\E s \in 1..ns : st.sh[s] # 0 /\ o.sh[s][2] # OW(ns, nw, nu)!UseCount(st, s), tag \o "/use_count")
+  \cup If(\E s \in 1..ns : st.sh[s] # 0 /\ (o.sh[s][3] = 1) # (OW(ns, nw, nu)!UseCount(st, s) = 1), tag \o "/unique")
+  \cup If(\E s \in 1..ns : o.sh[s][4] # 1, tag \o "/get_pointer-differs-from-dereference")
+  \cup If(\E w \in 1..nw : (o.wk[w][1] = 1) # (st.wk[w] >= 0), tag \o "/weak-slot")
+  \cup If(\E w \in 1..nw : st.wk[w] >= 0 /\ o.wk[w][2] # OW(ns, nw, nu)!WeakUseCount(st, w), tag \o "/weak-use_count")
+  \cup If(\E w \in 1..nw : st.wk[w] >= 0 /\ (o.wk[w][3] = 1) # OW(ns, nw, nu)!Expired(st, w), tag \o "/expired")
+  \cup If(\E u \in 1..nu : o.un[u] # st.un[u], tag \o "/unique-slot-holds-another-object")
+  \cup If(Len(o.obj) # Cardinality({p \in 1..8 : st.obj[p].made}), tag \o "/number-of-objects-constructed")
+  \cup If(\E p \in 1..Len(o.obj) : o.obj[p][1] # 1, tag \o "/constructor-runs")
+  \cup If(\E p \in 1..Len(o.obj) : o.obj[p][2] # st.obj[p].dtors, tag \o "/destructor-runs")
+
+RECURSIVE OwnFold(_, _, _)
+OwnFold(r, j, st) ==
+  IF j > Len(r.ops)
+  THEN (* every slot has been destroyed: every constructed object was destroyed exactly once *)
+       If(Len(r.end) # Cardinality({p \in 1..8 : st.obj[p].made}) \/ \E p \in 1..Len(r.end) : r.end[p] # <<1, 1>>,
+          "end/not-every-object-destroyed-exactly-once")
+  ELSE LET a == r.ops[j] IN
+       IF ~OW(r.ns, r.nw, r.nu)!Pre(st, a) THEN {"HARNESS-PRECONDITION"}
+       ELSE LET e == OW(r.ns, r.nw, r.nu)!Eff(st, a)
+                why == ObsReasons(r.ns, r.nw, r.nu, e.st, e.ret, r.obs[j], a.op)
+            IN IF why # {} THEN why ELSE OwnFold(r, j + 1, e.st)
+
+OwnReasons(r) ==
+  IF Len(r.obs) # Len(r.ops) THEN {"HARNESS-PRECONDITION"}
+  ELSE OwnFold(r, 1, OW(r.ns, r.nw, r.nu)!InitState)
+
 C17Reasons(r) ==
   CASE r.f = "order" -> OrderReasons(r)
     [] r.f = "st_int" -> StIntReasons(r)
     [] r.f = "st_u32" -> StU32Reasons(r)
     [] r.f = "wrap" -> WrapReasons(r)
+    [] r.f = "wrapx" -> WrapXReasons(r)
+    [] r.f = "own" -> OwnReasons(r)
     [] OTHER -> {"unknown-record-kind"}
+
+(* Scope (docs/EXTENSION_BRIEF.md): rejected records of these kinds may become a
+   VIOLATION of C17, the other kinds are judged and counted as observations only.
+     st_int, st_u32  "strong_typedef arithmetic, bitwise, assignment and comparison operators
+                     give exactly the wrapped result of the same operator on the underlying values"
+     wrap            "reference, recursive, unique_ptr/shared_ptr and type_iso wrappers expose
+                     exactly the wrapped object"
+     order           "== is an equivalence that holds exactly when all observable components are
+                     equal, != is its negation, < is a strict weak order compatible with ==, and
+                     equal values have equal hashes" for the listed types
+   Observed only: wrapx (conversions between wrappers, copy depth of recursive, strong_typedef
+   map/apply/IO, fcppt::function), own (ownership, use counts, lifetime, lock/expired). *)
+InScope == {"order", "st_int", "st_u32", "wrap"}
 =============================================================================
